@@ -517,12 +517,51 @@ def run(report, p):
                     ok_pat = isinstance(pat, str) and pat.startswith("^") and "(?=" in pat and "<" in pat and not pat.startswith("^(?=.*")
                     ok_flags = bool(flags) and "MULTILINE" in norm(flags[0]) and "DOTALL" not in norm(flags[0])
                     r7.check(ok_pat and ok_flags, f, e, f"the indentation is inserted by `{norm(e)[:70]}`, which is not anchored at the start of markup lines only", construct=f"{f.name}: indentation pattern")
+                    # ... and even an anchored pattern cannot tell the line break the serialiser puts in front of a closing tag from one that ENDS a text value
+                    # (`<path>a\n</path>` for a file named "a\n"): it may only ever see the constant tags the writers emit by hand, never a serialised element
+                    for cf_, call_ in callers_of(p, fq):
+                        b_ = p.bind_args(f, call_)
+                        a_ = b_.get(param)
+                        if a_ is None or isinstance(p.fold(a_, cf_), str):
+                            continue
+                        r7.instance(cf_, call_, f"{cf_.name}: {norm(call_)[:60]}")
+                        r7.check(False, cf_, call_, f"`{norm(call_)[:70]}` hands serialised, variable XML to {f.name}, which indents it by editing the text line by line (`{norm(e)[:50]}`): the line that holds the closing tag of a text value ending in a line break (`<path>a\\n</path>` for a file named 'a\\n') gets the indentation inserted INTO the value - the name read back differs, verify reports the file as new (exit 21) on an unchanged tree. Indent the element tree (etree.indent) before serialising instead", construct=f"{cf_.name}: serialised element indented by text edit")
                     e = e.args[2]
                     continue
                 if isinstance(e, ast.Call) and (norm(e.func) in ("textwrap.indent", "textwrap.dedent", "textwrap.fill") or (isinstance(e.func, ast.Attribute) and e.func.attr in ("splitlines", "strip", "rstrip", "lstrip", "replace", "expandtabs", "translate", "title", "lower", "upper"))):
                     r7.check(False, f, e, f"`{norm(e)[:60]}` edits the serialised document as a whole, text values included: Python's line splitting breaks at U+2028, U+0085, VT, FF ... as well as at line feeds, so a file or folder name that contains one of them is written with the indentation (or without the stripped characters) inside the name and is not recovered by any reader", construct=f"{f.name}: line-based edit of serialised XML ({norm(e.func)})")
                     break
                 raise AnalysisError(f"{f.loc(wcall)}: how the string written derives from `{param}` is not understood: {norm(e)[:80]}")
+
+    for fq, param in ew.items():
+        f = p.funcs[fq]
+        if not f.module.name.endswith("_xml_parser"):
+            continue
+        for wcall in [n for n in walk_no_nested(f.node) if isinstance(n, ast.Call) and isinstance(n.func, ast.Attribute) and n.func.attr == "write" and n.args]:
+            r7.instance(f, wcall, f"{f.name}: {norm(wcall)[:60]}")
+            e = wcall.args[0]
+            for _ in range(6):
+                if isinstance(e, ast.Call) and isinstance(e.func, ast.Attribute) and e.func.attr == "encode":
+                    e = e.func.value
+                elif isinstance(e, ast.Name):
+                    binds = [n for n in walk_no_nested(f.node) if isinstance(n, ast.Assign) and len(n.targets) == 1 and isinstance(n.targets[0], ast.Name) and n.targets[0].id == e.id]
+                    if len(binds) != 1:
+                        break
+                    e = binds[0].value
+                else:
+                    break
+            parts_ = []
+
+            def _flat(x):
+                if isinstance(x, ast.BinOp) and isinstance(x.op, ast.Add):
+                    _flat(x.left)
+                    _flat(x.right)
+                else:
+                    parts_.append(x)
+
+            _flat(e)
+            okw = all(isinstance(x, ast.Constant) or (isinstance(x, ast.Name) and x.id in f.params and x.id != param) or (isinstance(x, ast.Call) and norm(x.func).endswith("etree.tostring") and x.args and norm(x.args[0]) == param) for x in parts_) and any(isinstance(x, ast.Call) for x in parts_)
+            r7.check(okw, f, wcall, f"the element writer does not write `<indent> + etree.tostring({param}) + <constant>` as it is: `{norm(e)[:80]}`", construct=f"{f.name}: serialised element edited before the write")
 
     # ------------------------------------------------------------------ R10.3
     r3 = report.rule("R10.3", "path conversion pairing: every path-typed text is converted to POSIX on the way out and back to local form on the way in; both conversions are pure separator conversions (no normalisation, case folding or trimming)", 6)
